@@ -45,9 +45,10 @@ theorem malloc_served' {sz al n a bytes : Nat} (hsz : 0 < sz) {os : Nat → Bool
 /-- the alignment the C library is asked for is sufficient for a type whose alignment is a power of two -/
 theorem mallocAlignment_dvd (k : Nat) : 2 ^ k ∣ mallocAlignment (2 ^ k) := by
   unfold mallocAlignment mallocOverCond mallocOverAlign maxAlign
-  by_cases h : 2 ^ k > 16
-  · simp [h]
-  · simp only [h, decide_false, Bool.false_eq_true, if_false]
+  split
+  · exact Nat.dvd_refl _
+  · rename_i h
+    simp only [decide_eq_true_eq] at h
     have hk : k ≤ 4 := by
       apply Classical.byContradiction
       intro hk
